@@ -56,6 +56,9 @@ def build(backend):
     for n1, n2, n3 in itertools.permutations(NAMES[:4], 3):
         (e1, t1), (e2, t2), (e3, t3) = core[2], core[4], core[6]
         add("dict3", per.format(f"{{'{n1}': {e1}, '{n2}': {e2}, '{n3}': {e3}}}"), [n1, n2, n3], [t1, t2, t3])
+    # tree names that are not identifiers: the descriptor names the tree the job books and fills, character for character
+    for tn in ("muon-tree", "run2.muons", "my tree", "t", "Tree_1", "muons/v1"):
+        add(f"explicit-tree-name:{tn}", f"ResultTTree({per.format('(j.pt(), j.nTrk())')}, ['a', 'b'], {tn!r}, 'file.root')", ["a", "b"], [{"double"}, {"int"}])
     # explicit single name given as a bare string
     add("explicit1-str", f"ResultTTree({per.format('j.pt()')}, 'solo', 'mytree', 'file.root')", ["solo"], [{"double"}])
     # wrong label counts must raise
